@@ -224,8 +224,41 @@ func solveOne(workdir string, idx int, fr *FuncResult, o *Obligation, timeout in
 		if t1 > 4 {
 			t1 = 4
 		}
-		if raceQuery(workdir, fmt.Sprintf("q%05d-sliced.smt2", idx), buildQuery(fr, o, true), o, t1, true) {
-			return
+		// ... raced against the unsliced query on one solver: the slice can drop a fact that shares no symbol with
+		// the goal, and then only the full query is provable. The first `unsat` decides.
+		type r1 struct {
+			ok   bool
+			full bool
+			ob   Obligation
+		}
+		ch1 := make(chan r1, 2)
+		go func() {
+			oc := *o
+			ok := raceQuerySolvers(workdir, fmt.Sprintf("q%05d-full1.smt2", idx), buildQuery(fr, o, false), &oc, t1, true, []solverSpec{solvers[0]})
+			ch1 <- r1{ok, true, oc}
+		}()
+		go func() {
+			oc := *o
+			ok := raceQuery(workdir, fmt.Sprintf("q%05d-sliced.smt2", idx), buildQuery(fr, o, true), &oc, t1, true)
+			ch1 <- r1{ok, false, oc}
+		}()
+		var slicedOb *Obligation
+		for k := 0; k < 2; k++ {
+			r := <-ch1
+			if r.ok {
+				*o = r.ob
+				if r.full {
+					o.Solver += "/full"
+				}
+				return
+			}
+			if !r.full {
+				oc := r.ob
+				slicedOb = &oc
+			}
+		}
+		if slicedOb != nil {
+			*o = *slicedOb
 		}
 		spent := o.Seconds
 		// stage 2, in parallel: reduced sets of quantified facts. Any subset of the assumptions is sound for `unsat`;
@@ -272,8 +305,10 @@ func solveOne(workdir string, idx int, fr *FuncResult, o *Obligation, timeout in
 				sb.WriteString("; ---- obligation " + o.Name + "\n(assert " + o.Reach.s + ")\n(assert (not " + o.Cond.s + "))\n(check-sat)\n")
 				vs = append(vs, variant{fmt.Sprintf("single%d", k), sb.String()})
 			}
-			// the full sliced query again with the whole timeout
+			// the full sliced query again with the whole timeout, and the unsliced query (the slice can lose a fact
+			// that has no symbol in common with the goal, e.g. an axiom about an uninterpreted function)
 			vs = append(vs, variant{"sliced", buildQuery(fr, o, true)})
+			vs = append(vs, variant{"full", buildQuery(fr, o, false)})
 			type res struct {
 				ok  bool
 				tag string
@@ -294,6 +329,12 @@ func solveOne(workdir string, idx int, fr *FuncResult, o *Obligation, timeout in
 				r := <-ch
 				if r.ob.Seconds > maxSec {
 					maxSec = r.ob.Seconds
+				}
+				if r.ok {
+					// the first variant that proves the goal decides; the others run out on their own timeouts
+					rr := r
+					got = &rr
+					break
 				}
 				if r.ok && (got == nil || r.ob.Seconds < got.ob.Seconds) {
 					rr := r
@@ -329,7 +370,10 @@ func solveOne(workdir string, idx int, fr *FuncResult, o *Obligation, timeout in
 				t = 5
 			}
 			if raceQuery(workdir, fmt.Sprintf("q%05d-relaxed.smt2", idx), strings.Join(keep, "\n"), o, t, false) && o.Status == "refuted" {
-				o.Solver += "/relaxed-axioms"
+				// a model of the relaxed query is only a candidate input for the replay: the obligation itself
+				// stays undecided (and is retried with a longer timeout like every undecided obligation)
+				o.Status = "undecided"
+				o.Solver = prev.Solver + "; candidate model from " + o.Solver + " with relaxed axioms"
 				o.Seconds += prev.Seconds
 				return
 			}
